@@ -132,6 +132,7 @@ a.a -> b: L6
 `},
 	{Name: "case-variant-child", Text: "X: L1 {\n  x: L2\n  y: L3\n}\nz: L4\nX.x -> z: L5\n"},
 	{Name: "chain-through-descendant", Text: "x: L1\ny: L2\nq: L3\na: L4 {\n  b: L5 {\n    c: L6\n  }\n}\nx -> a.b.c -> y: L7\n"},
+	{Name: "chain-with-map", Text: "a: L1\nb: L2\nc: L3\na -> b -> c: {\n  style.stroke: red\n}\n"},
 	{Name: "sql-class-shapes", Tier: 1, Text: `t: L1 {
   shape: sql_table
   id: int
